@@ -221,9 +221,7 @@ func (f *Fam) genTx(r *rand.Rand, s *Snapshot) string {
 		return "tx " + m + " " + old
 	}
 	line := f.genTx1(r, s)
-	// (transactions paying part of their fee in the second denomination are not replayed: whether that part is still
-	// affordable later is something the model does not track)
-	if w := strings.SplitN(line, " ", 3); len(w) == 3 && len(f.gen.past) < 200 && !strings.Contains(line, "fee2=") {
+	if w := strings.SplitN(line, " ", 3); len(w) == 3 && len(f.gen.past) < 200 {
 		f.gen.past = append(f.gen.past, w[2])
 	}
 	return line
@@ -450,11 +448,14 @@ func (f *Fam) genTx1(r *rand.Rand, s *Snapshot) string {
 	}
 	fee2 := ""
 	if v := balOf(s, addr, Denom2); v.IsPositive() && r.Intn(3) == 0 {
-		// part of the fee in the other denomination - always affordable, so that it never decides acceptance; what it
-		// must not do is count towards the required fee (C03), vanish (C02), or get lost on the way to the proposer (C10)
+		// part of the fee in the other denomination: it must not count towards the required fee (C03), vanish (C02),
+		// or get lost on the way to the proposer (C10)
 		amt := int64(1)
 		if v.GT(sdk.NewInt(3)) && r.Intn(2) == 0 {
 			amt = 3
+		}
+		if r.Intn(8) == 0 { // more than the signer holds: refused, whatever the staking-coin part
+			amt = v.Int64() + 1 + int64(r.Intn(3))
 		}
 		fee2 = fmt.Sprintf(" fee2=%d", amt)
 		if r.Intn(3) == 0 {
